@@ -21,7 +21,7 @@ Proof.
   - left. reflexivity.
   - destruct (norm_index _ _); left; reflexivity.
   - destruct (find p (gens s)); [|exact HI]. destruct (processing true (gens s) q). left. reflexivity.
-  - destruct (Nat.eqb _ _); [|exact HI]. destruct (find p (gens s)); [|exact HI]. left. reflexivity.
+  - destruct (Nat.eqb _ _); [|exact HI]. destruct (find p (gens s)); [|exact HI]. destruct (processing true (gens s) (smul p q)). left. reflexivity.
   - destruct (expand_to true n (gens s)); left; reflexivity.
   - cbn [fst]. destruct HI as [HI|[c [HI HP]]]; [left; exact HI|]. right. exists c. cbn [cache gens]. split; [exact HI|].
     rewrite HP. symmetry. apply sort_perm.
@@ -34,7 +34,7 @@ Proof.
   - destruct (processing true (gens s) p); discriminate.
   - destruct (norm_index _ _); discriminate.
   - destruct (find p (gens s)); [destruct (processing true (gens s) q)|]; discriminate.
-  - destruct (Nat.eqb _ _); [destruct (find p (gens s))|]; discriminate.
+  - destruct (Nat.eqb _ _); [destruct (find p (gens s)); [destruct (processing true (gens s) (smul p q))|]|]; discriminate.
   - destruct (expand_to true n (gens s)); discriminate.
   - destruct (cache s) as [c0|] eqn:E; cbn [snd]; intros [= <-]; [|reflexivity].
     destruct HI as [HI|[c1 [HI HP]]]; [congruence|]. rewrite E in HI. injection HI as <-. exact HP.
@@ -146,16 +146,10 @@ Proof.
     destruct l as [|a t]; [destruct k; intros g []|].
     apply (uniform_of_const _ n). intros g Hg. apply In_set_nth in Hg. destruct Hg as [->|Hg]; [apply H2; discriminate|auto].
   - destruct (Nat.eqb (length p) (length q)) eqn:EL; [|exact HU]. destruct (find p (gens s)) as [k|] eqn:EF; [|exact HU].
-    cbn [fst gens]. apply Nat.eqb_eq in EL.
-    assert (Hp : In p (gens s)).
-    { clear -EF. revert k EF. induction (gens s) as [|a t IH]; intros k EF; [discriminate|]. cbn in EF.
-      destruct (pstr_eqb p a) eqn:E.
-      - left. clear -E. revert a E. induction p as [|x p IHp]; intros [|y a] E; try discriminate; [reflexivity|].
-        cbn in E. apply andb_true_iff in E. destruct E as [E1 E2]. f_equal; [|apply IHp; exact E2].
-        unfold pl_eqb in E1. apply andb_true_iff in E1. destruct E1 as [A B]. apply eqb_prop in A, B. destruct x, y; cbn in *; congruence.
-      - right. destruct (find p t); [|discriminate]. eapply IH. reflexivity. }
-    apply (uniform_of_const _ (maxlen (gens s))). intros g Hg. apply In_set_nth in Hg. destruct Hg as [->|Hg]; [|auto].
-    rewrite smul_length by exact EL. apply HU. exact Hp.
+    destruct (processing true (gens s) (smul p q)) as [l q'] eqn:EP. cbn [fst gens].
+    destruct (processing_uniform _ _ _ _ HU EP) as [n [H1 H2]].
+    destruct l as [|a t]; [destruct k; intros g []|].
+    apply (uniform_of_const _ n). intros g Hg. apply In_set_nth in Hg. destruct Hg as [->|Hg]; [apply H2; discriminate|auto].
   - destruct (expand_to true n (gens s)) as [l|] eqn:EE; cbn [fst gens]; [|exact HU].
     unfold expand_to in EE. destruct (forallb (fun g => Nat.leb (length g) n) (gens s)) eqn:EF; [|discriminate]. injection EE as <-.
     apply (uniform_of_const _ n). intros g Hg. apply in_map_iff in Hg. destruct Hg as [h [<- Hh]]. apply pad_length.
